@@ -474,6 +474,13 @@ example : (match checkModuleTree Graph.new witnessMods with
     | .ok out => fullName out.g ⟨4, 6⟩ | _ => .err .notDefined) =
     .ok [.id PKG, .id 4, .id 3, .id 6] := by decide
 
+example : ∀ out, checkModuleTree Graph.new witnessMods = .ok out → (1 = 1 ∧ 6 = 6) := by
+  intro out h
+  exact export_injective [] witnessMods Graph.new [] out rfl h 1 1 [PKG, 3] [PKG, 3]
+    (.child (m := ⟨3, some 0, [.fn 6 101 (.mk [] [])]⟩) rfl rfl (.root (m := ⟨PKG, none, []⟩) rfl rfl))
+    (.child (m := ⟨3, some 0, [.fn 6 101 (.mk [] [])]⟩) rfl rfl (.root (m := ⟨PKG, none, []⟩) rfl rfl))
+    6 6 rfl
+
 /-- **T5 (retrieval).** Every function is retrievable from Rust by its module
     path: after a successful `check_module_tree` on top of any registered
     runtime modules `rt`, `get_function("path'.f")` — the lookup of `pkg.path'.f`
@@ -487,6 +494,14 @@ theorem get_function_spec (rt ms : List Module) (g0 : Graph) (m0 : List Nat) (ou
     (hm : ms[i]? = some m) (hp : PathTo ms i (PKG :: path')) (hf : Item.fn f tag body ∈ m.items) :
     getFunction out.g (path' ++ [f]) = some tag :=
   getFunction_spec_rt h0 h hm hp hf
+
+example : ∀ out, checkModuleTree Graph.new witnessMods = .ok out →
+    getFunction out.g [3, 6] = some 101 := by
+  intro out h
+  exact get_function_spec [] witnessMods Graph.new [] out rfl h 1
+    ⟨3, some 0, [.fn 6 101 (.mk [] [])]⟩ [3] 6 101 (.mk [] []) rfl
+    (.child (m := ⟨3, some 0, [.fn 6 101 (.mk [] [])]⟩) rfl rfl (.root (m := ⟨PKG, none, []⟩) rfl rfl))
+    (by simp)
 
 -- `get_function("bb.aa.ff")` on the witness tree is #102, `get_function("aa.ff")` is #101
 example : (match checkModuleTree Graph.new witnessMods with
@@ -519,6 +534,11 @@ theorem discovery_modules (root : List Entry) (files : List SrcFile)
   · cases h
     simp [specInto_names]
   · cases h
+
+example : ([⟨PKG, [1, 2]⟩, ⟨7, []⟩, ⟨8, [3]⟩, ⟨9, []⟩] : List SrcFile).map (·.moduleName) =
+    PKG :: preorder (specChildren [.file PKG true, .file 7 true, .dir 8 [.file MOD true, .file 9 true],
+      .dir 10 [.file 9 true], .file 11 false, .file MOD true]) :=
+  discovery_modules _ _ (by simp [directory, findFiles, hasMod, pushChild, PKG, MOD, List.modify])
 
 example : directory [.file PKG true, .file 7 true, .dir 8 [.file MOD true, .file 9 true],
                      .dir 10 [.file 9 true], .file 11 false, .file MOD true] =
